@@ -11,7 +11,7 @@
     around internal buffer boundaries, slice and chunked readers). *)
 From Coq Require Import List NArith ZArith.
 Require Import Base Schema Sval Ser Target Reader De AvroValue Encoding Denote Wf VectoredWrite Container.
-Require Import ContainerReadProofs.
+Require Import ContainerReadProofs ContainerHeaderProofs ContainerChunkProofs.
 Import ListNotations.
 
 (* a history: values (serialized through the writer), pushes of pre-serialized values, flushes *)
@@ -31,6 +31,38 @@ Theorem C05_roundtrip_null : forall Sc cfg root approx sync vectored,
         = map IValue ds ++ repeat IEof k
       /\ map erase_borrow ds = map (dval_any Sc root) (vals_of hs).
 Proof. exact session_read_back. Qed.
+
+(* the WHOLE file, header included: build with any user metadata, any history, close; then opening
+   the sink returns the metadata written (schema JSON, codec name, user entries) and reading yields
+   exactly the values, in order, then end of stream *)
+Theorem C05_roundtrip_file : forall Sc cfg root approx sync vectored json codec user sched st0 (hs : list hop) (close : wop) outs st',
+  schema_wf Sc = true -> fnode_at Sc 0 = Some root -> length sync = 16%nat ->
+  keys_utf8 user -> (length user <= 998)%nat -> Forall unreserved user ->
+  Utf8.utf8_valid json = true -> In codec codec_names ->
+  wbuild sync json codec user sched = (WROk, st0) ->
+  Forall (value_ok Sc cfg root) (vals_of hs) ->
+  fits (length (vals_of hs)) -> fits (length (encs Sc root (vals_of hs))) ->
+  close = WFinish \/ close = WIntoInner \/ close = WDrop ->
+  wrun (fun b => b) Sc approx sync vectored st0 (map (op_of Sc root) hs ++ [close]) = (outs, st') ->
+  Forall (fun r : wout * N => fst r = WROk) outs ->
+  forall k, exists entries r ds,
+    cr_open (slice_reader (w_sink st')) = Ok (entries, sync, r) /\
+    header_meta entries = Ok (json, codec, user) /\
+    cr_run Sc cfg sync TAny (length (vals_of hs) + k) (mkCR (RNotInBlock r) false) = map IValue ds ++ repeat IEof k /\
+    map erase_borrow ds = map (dval_any Sc root) (vals_of hs).
+Proof. exact file_read_back_slice. Qed.
+
+(* "from a slice or from any buffered reader": whatever a file yields from a slice -- values then end
+   of stream -- it yields through a BufRead delivering ANY chunking *)
+Theorem C05_any_buffered_reader : forall Sc cfg t file plan ma m sy s' n ds k,
+  schema_wf Sc = true -> (N.of_nat (length file) <= ma)%N ->
+  cr_open (slice_reader file) = Ok (m, sy, s') ->
+  cr_run Sc cfg sy t n (mkCR (RNotInBlock s') false) = map IValue ds ++ repeat IEof k ->
+  exists r' ds',
+    cr_open (chunked_reader file plan ma) = Ok (m, sy, r') /\
+    cr_run Sc cfg sy t n (mkCR (RNotInBlock r') false) = map IValue ds' ++ repeat IEof k /\
+    map erase_borrow ds' = map erase_borrow ds.
+Proof. exact container_chunk_independent. Qed.
 
 (* what build returns: the header is in the sink and the writer is in the state above *)
 Theorem C05_build : forall Sc root sync json codec user sched st,
